@@ -131,3 +131,61 @@ func SpecSpace(quick bool, yield func(sp *Spec, family string)) {
 	nest(&Alt{Ops: []Expr{a, x}}, 0)
 	nest(a, 0)
 }
+
+// Scaling enumerates long specifications of simple shape: n alternatives, n-fold nesting of every bracket kind,
+// n juxtaposed operands, n declarations of every kind, n handles, n directives - for every n in sizes.
+// They exercise depth- and length-related limits of a parser (stack depth, buffer sizes) that short sentences cannot.
+func Scaling(sizes []int, yield func(text, family string, n int)) {
+	rep := func(s string, n int, sep string) string {
+		out := make([]string, n)
+		for i := range out {
+			out[i] = s
+		}
+		return joinStrings(out, sep)
+	}
+	for _, n := range sizes {
+		yield("grammar g ;\nstart = "+rep(`"a"`, n, " | ")+" ;\n", "alternatives", n)
+		yield("grammar g ;\nstart = "+rep(`"a" x`, n, " | ")+" | ;\nx = ;\n", "alternatives_trailing", n)
+		yield("grammar g ;\nstart = "+rep(`"a"`, n, " ")+" ;\n", "operands", n)
+		for _, b := range [][2]string{{"(", ")"}, {"[", "]"}, {"{", "}"}, {"{{", "}}"}} {
+			yield("grammar g ;\nstart = "+rep(b[0], n, " ")+` "a" `+rep(b[1], n, " ")+" ;\n", "nesting"+b[0], n)
+		}
+		mixedOpen, mixedClose := "", ""
+		kinds := [][2]string{{"(", ")"}, {"[", "]"}, {"{", "}"}, {"{{", "}}"}}
+		for i := 0; i < n; i++ {
+			k := kinds[i%4]
+			mixedOpen += k[0] + " "
+			mixedClose = " " + k[1] + mixedClose
+		}
+		yield("grammar g ;\nstart = "+mixedOpen+`"a" | x`+mixedClose+" ;\nx = ;\n", "nesting_mixed", n)
+		rules := ""
+		for i := 0; i < n; i++ {
+			rules += fmt.Sprintf("r%d = \"a\" r%d | ;\n", i, (i+1)%n)
+		}
+		yield("grammar g ;\nstart = r0 ;\n"+rules, "rules", n)
+		toks := ""
+		use := ""
+		for i := 0; i < n; i++ {
+			toks += fmt.Sprintf("T%d_ = \"t%d\"\n", i, i)
+			use += fmt.Sprintf(" T%d_", i)
+		}
+		yield("grammar g ;\n"+toks+"start ="+use+" ;\n", "tokens", n)
+		yield("grammar g ;\n"+toks+"@left"+use+" ;\nstart ="+use+" ;\n", "handles", n)
+		dirs := ""
+		for i := 0; i < n; i++ {
+			dirs += fmt.Sprintf("@right T%d_ < q = q T%d_ q >\n", i, i)
+		}
+		yield("grammar g ;\n"+toks+dirs+"start = q ;\nq = T0_ ;\n", "directives", n)
+	}
+}
+
+func joinStrings(xs []string, sep string) string {
+	out := ""
+	for i, x := range xs {
+		if i > 0 {
+			out += sep
+		}
+		out += x
+	}
+	return out
+}
